@@ -234,6 +234,69 @@ pub fn harvest_keywords() -> Vec<(String, String)> {
     found
 }
 
+/// Names that are not lexer keywords but that some part of the parser / program / library treats specially,
+/// read from the sources: standard gate names (reserved.rs ReservedGate and the matrix tables of instruction/gate.rs),
+/// reserved constants (reserved.rs), the words parse_expression_identifier reserves (parser/expression.rs), built-in
+/// waveform names (waveform/mod.rs), reserved pragma names (instruction/pragma.rs constants and every literal a
+/// pragma name is compared with), and true / false (which mean nothing today).
+pub fn harvest_special_values() -> Vec<(String, String)> {
+    let read = |f: &str| std::fs::read_to_string(format!("/repo/quil-rs/src/{f}")).unwrap_or_else(|e| panic!("{f}: {e}"));
+    let mut found: Vec<(String, String)> = vec![];
+    let mut add = |class: &str, w: &str| {
+        if !w.is_empty() && !found.iter().any(|(_, x)| x == w) {
+            found.push((class.to_string(), w.to_string()));
+        }
+    };
+    // quoted words of a line: "..."
+    let quoted = |l: &str| -> Vec<String> { l.split('"').skip(1).step_by(2).map(|s| s.to_string()).collect() };
+    let reserved = read("reserved.rs");
+    let lines: Vec<&str> = reserved.lines().collect();
+    for (en, class, lower) in [("ReservedGate", "standard gate", false), ("ReservedConstant", "constant", true)] {
+        let at = lines.iter().position(|l| l.trim_start().starts_with(&format!("pub enum {en} "))).unwrap_or_else(|| panic!("{en}"));
+        let mut explicit: Option<String> = None;
+        for l in &lines[at + 1..] {
+            let l = l.trim();
+            if l.starts_with('}') { break; }
+            if l.starts_with("#[strum(") { explicit = quoted(l).into_iter().next(); continue; }
+            let v: String = l.chars().take_while(|c| c.is_alphanumeric()).collect();
+            if v.is_empty() { continue; }
+            let w = explicit.take().unwrap_or(if lower { v.to_lowercase() } else { v.to_uppercase() });
+            add(class, &w);
+        }
+    }
+    for l in read("instruction/gate.rs").lines() {
+        let l = l.trim();
+        if l.ends_with(".to_string(),") && l.starts_with('"') {
+            for w in quoted(l) { if w.chars().all(|c| c.is_ascii_uppercase() || c.is_ascii_digit()) { add("standard gate", &w); } }
+        }
+    }
+    for l in read("parser/expression.rs").lines() {
+        let l = l.trim();
+        if l.starts_with('"') && l.contains("\" =>") {
+            for w in quoted(l).into_iter().take(1) { add("expression word", &w); }
+        }
+    }
+    for l in read("waveform/mod.rs").lines() {
+        let l = l.trim();
+        if l.starts_with('"') && l.contains("=> parse_builtin!") {
+            for w in quoted(l).into_iter().take(1) { add("built-in waveform", &w); }
+        }
+    }
+    for l in read("instruction/pragma.rs").lines() {
+        if l.contains("pub const") && l.contains("&str") { for w in quoted(l) { add("reserved pragma", &w); } }
+    }
+    for f in ["program/calibration.rs", "program/mod.rs", "parser/command.rs", "instruction/extern_call.rs"] {
+        for l in read(f).lines() {
+            if l.contains("name ==") || l.contains("name.as_str() ==") {
+                for w in quoted(l) { if w.chars().all(|c| c.is_ascii_uppercase() || c == '-' || c == '_') { add("reserved pragma", &w); } }
+            }
+        }
+    }
+    add("boolean word", "true");
+    add("boolean word", "false");
+    found
+}
+
 /// spellings that equal a keyword up to letter case
 fn look_alikes(kw: &str) -> Vec<String> {
     let lower = kw.to_lowercase();
@@ -242,9 +305,13 @@ fn look_alikes(kw: &str) -> Vec<String> {
     if let Some(f) = cap.get(0..1) {
         cap = f.to_uppercase() + &lower[1..];
     }
-    let mut v = vec![lower, cap, upper];
-    v.retain(|s| s != kw);
-    v.dedup();
+    // mIxEd: alternate the case of the letters
+    let mut up = false;
+    let mixed: String = lower.chars().map(|c| if c.is_ascii_alphabetic() { up = !up; if up { c } else { c.to_ascii_uppercase() } } else { c }).collect();
+    let mut v: Vec<String> = vec![];
+    for s in [lower, cap, upper, mixed] {
+        if !v.contains(&s) { v.push(s); }
+    }
     v
 }
 
@@ -272,6 +339,7 @@ const KW_POSITIONS: &[(&str, &str)] = &[
     ("waveform.key", "PULSE 0 \"rf\" w9({N}: 1)"),
     ("defwaveform.name", "DEFWAVEFORM {N}:\n    1, 2"),
     ("pragma.name", "PRAGMA {N}"),
+    ("pragma.name.in-body", "X 0\nPRAGMA {N} a9 \"s\"\nY 0"),
     ("pragma.argument", "PRAGMA p9 {N} 1"),
     ("defgate.name", "DEFGATE {N} AS PERMUTATION:\n    0, 1"),
     ("defcircuit.name", "DEFCIRCUIT {N}:\n    X 0"),
@@ -292,23 +360,28 @@ fn harvest_cases(ctx: &Ctx) -> Summary {
     let path = ctx.arg_str("out").expect("--out");
     let mut out = std::io::BufWriter::new(std::fs::File::create(path).expect("create"));
     let mut sum = Summary::default();
-    for (class, kw) in harvest_keywords() {
+    let keywords = harvest_keywords();
+    let mut words: Vec<(String, String, bool)> = keywords.iter().map(|(c, k)| (c.clone(), k.clone(), true)).collect();
+    words.extend(harvest_special_values().into_iter().map(|(c, k)| (c, k, false)));
+    for (class, kw, is_keyword) in words {
         for name in look_alikes(&kw) {
+            if is_keyword && name == kw || keywords.iter().any(|(_, k)| *k == name) {
+                continue; // the keyword itself is not an identifier
+            }
             for (pos, tpl) in KW_POSITIONS {
                 let text = tpl.replace("{N}", &name);
                 let written = tpl.matches("{N}").count();
                 let mut o = Outcome::ok(true);
-                let ok = match Program::from_str(&text) {
-                    Ok(p) => {
-                        let got = all_names(&Value::Array(c02::program_abs(&p)));
-                        got.iter().filter(|g| g.to_lowercase() == name.to_lowercase()).count() == written
-                            && case_changed(&got, &name).is_empty()
-                    }
-                    Err(_) => false,
-                };
-                if ok {
+                let accepted = Program::from_str(&text).ok().and_then(|p| {
+                    let listing = c02::program_abs(&p);
+                    let got = all_names(&Value::Array(listing.clone()));
+                    let intact = got.iter().filter(|g| g.to_lowercase() == name.to_lowercase()).count() == written
+                        && case_changed(&got, &name).is_empty();
+                    intact.then(|| (got, listing.iter().map(|i| i["k"].as_str().unwrap().to_string()).collect::<Vec<_>>()))
+                });
+                if let Some((names, kinds)) = accepted {
                     util::emit(&mut out, &json!({"class": class, "keyword": kw, "name": name, "pos": pos, "written": written,
-                                                 "text": text, "neutral": tpl.replace("{N}", NEUTRAL)}));
+                                                 "text": text, "neutral": tpl.replace("{N}", NEUTRAL), "names": names, "kinds": kinds}));
                     o.count("valid pair");
                 } else {
                     o.count("not a case on this tree");
@@ -331,10 +404,18 @@ fn replay_keyword_case(case: &Value) -> Outcome {
     match Program::from_str(text) {
         Err(e) => rejected(&mut o, pos, name, text, case["neutral"].as_str(), &e.to_string()),
         Ok(p) => {
-            let got = all_names(&Value::Array(c02::program_abs(&p)));
+            let listing = c02::program_abs(&p);
+            let got = all_names(&Value::Array(listing.clone()));
             let same: Vec<String> = got.iter().filter(|g| g.to_lowercase() == name.to_lowercase()).cloned().collect();
+            let kinds: Vec<Value> = listing.iter().map(|i| i["k"].clone()).collect();
             if same.len() != written || same.iter().any(|g| g != name) {
                 o.violate(Violation::new("names of the parsed program", json!(vec![name; written]), json!(got)).note(format!("{pos}: {text:?}")));
+            } else if json!(got) != case["names"] {
+                // some other name of the text changed (the baseline holds the names the unchanged tree produced)
+                o.violate(Violation::new("names of the parsed program", case["names"].clone(), json!(got)).note(format!("{pos}: {text:?}")));
+            } else if Value::Array(kinds.clone()) != case["kinds"] {
+                // same names, but the instructions are listed differently (e.g. a PRAGMA routed out of the body)
+                o.diverge(format!("{pos}: {text:?} is listed as {kinds:?}, the unchanged tree listed {}", case["kinds"]));
             }
         }
     }
